@@ -6,7 +6,7 @@ RUN_MODULE = "Run_C18"
 COQ_TARGETS = ["Corr/Run_C18.vo", "Proofs/KeyspaceBase.vo", "Proofs/KeyspaceProofs.vo", "Proofs/KeyspaceAlloc.vo",
                "Proofs/KeyspaceCovered.vo", "Proofs/KeyspaceTrie.vo", "Proofs/KeyspaceSubtract.vo",
                "Proofs/KeyspaceCoalesce.vo", "Proofs/KeyspaceNext.vo", "Proofs/KeyspaceGaps.vo",
-               "Proofs/KeyspaceRegions.vo", "Proofs/KeyspaceAssign.vo"]
+               "Proofs/KeyspaceRegions.vo", "Proofs/KeyspaceAssign.vo", "Proofs/KeyspaceRemove.vo"]
 # N bounds the number of case indices (replay by index); campaign sizes derive from N/20 (see the harness).
 N = {"quick": 3000, "thorough": 30000}
 GO_TIMEOUT = {"quick": 600, "thorough": 3000}
